@@ -4,6 +4,7 @@ set -e
 cd "$(dirname "$0")"
 export CARGO_NET_OFFLINE=true
 mkdir -p target evidence replays/found
+python3 tools/gen_wrappers.py
 (cd harness && cargo build --release --offline 2>&1 | tail -3)
 cargo build --offline --manifest-path /repo/Cargo.toml --bin aisparser --target-dir /verif/target/cli 2>&1 | tail -2
 target/harness/release/aisverif selftest
